@@ -12,8 +12,8 @@ import os
 import re
 
 from vf.extract import extract_item, match_brace, ExtractError
-from vf.unit import Unit, _find_all
-from units.openin import slice_loop_body
+from vf.unit import Unit, _find_all, uniter_collect
+from units.openin import slice_loop_body, loop_if_present
 
 HERE = os.path.dirname(os.path.abspath(__file__))
 
@@ -114,7 +114,9 @@ def build():
     ri.rewrite_re('R8', r'self\.push_scope\("[^"]*"\);', '')
     ri.rewrite_re('R8', r'self\.pop_scope\(\);', '')
     ri.rewrite_re('R11', r'\bF::ZERO\b', 'F::zero()')
-    ri.rewrite_re('R5', r'for \(i, &coeff\) in coeffs\.iter\(\)\.enumerate\(\) \{', 'for i in 0..coeffs.len() { let coeff = coeffs[i];', min_count=1)
+    ri.rewrite_re('R11', r'self\.expr_builder\.is_const_zero\(', 'is_const_zero(self, ', min_count=0)
+    uniter_collect(ri)
+    ri.rewrite_re('R5', r'for \((\w+), &?(\w+)\) in (\w+)\.(?:iter|into_iter)\(\)\.enumerate\(\) \{', r'for \1 in 0..\3.len() { let \2 = \3[\1];', min_count=1)
     ri.rewrite_re('R11', r'let mut basis_coeffs = vec!\[BF::ZERO; F::DIMENSION\];\s*basis_coeffs\[i\] = BF::ONE;\s*let basis_elem = F::from_basis_coefficients_slice\(&basis_coeffs\)\s*\.expect\("[^"]*"\);',
                   'let basis_elem = F::basis_element(i);', min_count=1)
     ri.requires('allocated_one_coefficient_per_basis_element', 'old(self).has_all(coeffs@) && coeffs@.len() == sp_dimension::<F>()')
@@ -130,8 +132,9 @@ def build():
                 assert(self.val(result) == packv(cv, n)); // @@A:H_narrow_recompose_table_binds_its_output_to_the_coefficient_slots
             }
         }''')
-    ri.at_loop_end('for i in 0..coeffs.len()', '''proof { assert(old(self).has(coeffs@[i as int])); assert(cv[i as int] == old(self).val(coeffs@[i as int])); }''')
-    ri.loop('for i in 0..coeffs.len()', invariants=[
+    if 'for i in 0..coeffs.len()' in ri.body:
+        ri.at_loop_end('for i in 0..coeffs.len()', '''proof { assert(old(self).has(coeffs@[i as int])); assert(cv[i as int] == old(self).val(coeffs@[i as int])); }''')
+    loop_if_present(ri, 'for i in 0..coeffs.len()', invariants=[
         ('frame', 'self.extends_pure(old(self)) && self.has(acc) && old(self).has_all(coeffs@) && cv == old(self).vals_of(coeffs@) && n == coeffs@.len() && n == sp_dimension::<F>()'),
         ('accumulated_prefix', 'self.val(acc) == packv(cv, i as int)'),
     ])
